@@ -129,7 +129,7 @@ Health == /\ pc = "health" /\ Emit(<<"health", "turn">>) /\ pc' = "end"
           /\ UNCHANGED <<inp, ver, snaps, reflmem, stash, turnno, h>>
 
 End == /\ pc = "end"
-       /\ h' = Append(h, [inp |-> inp, log |-> log, ver |-> ver, reflmem |-> reflmem, snap |-> (turnno \in snaps)])
+       /\ h' = Append(h, [inp |-> inp, log |-> log, ver |-> ver, reflmem |-> reflmem, snap |-> (turnno \in snaps), stash_out |-> stash])
        /\ pc' = "idle"
        /\ UNCHANGED <<inp, log, ver, snaps, reflmem, stash, turnno>>
 
@@ -137,9 +137,33 @@ Next == Begin \/ T1 \/ T2 \/ GelObserve \/ T3 \/ T4 \/ GelTick \/ Apply \/ Refle
 Spec == Init /\ [][Next]_vars
 
 -----------------------------------------------------------------------------
+\* The record sequence of a turn as a function of its inputs and of the stash the context object carried
+\* in (used by TurnTrace for validating recorded sessions; StepwiseEqualsFunctional ties it to the actions)
+Yd(i, st) == i.sched /\ i.yield_at = st
+ExpectedLog(i, stashIn) ==
+    LET st0 == IF i.reuse /\ ~StashCleared THEN stashIn ELSE FALSE
+        yk == <<"scheduler", "turn">>
+        gel1 == IF i.graph /\ ~i.dry THEN <<"gel">> ELSE <<>>
+        runs == i.allow_refl /\ i.plan_refl /\ ~i.dry
+        refl == IF (runs \/ st0) /\ "refl_log" \notin i.faults THEN <<"t3_reflection">> ELSE <<>>
+        tail == refl \o <<"health", "turn">>
+        gel2 == (IF i.graph THEN <<"gel">> ELSE <<>>) \o
+                (IF i.graph /\ i.maint /\ "gel_maint" \notin i.faults THEN <<"gel">> ELSE <<>>)
+        p2 == <<"t1", "t2">> \o gel1
+        p3 == p2 \o <<"t3", "t3_plan", "t3_dialogue">>
+    IN IF Yd(i, "T1") THEN <<"t1">> \o yk
+       ELSE IF Yd(i, "T2") THEN <<"t1", "t2">> \o yk
+       ELSE IF i.dry THEN p2 \o <<"t4">>
+       ELSE IF Yd(i, "T3") THEN p2 \o yk
+       ELSE IF i.kill THEN p3 \o tail
+       ELSE IF Yd(i, "T4") THEN p3 \o <<"t4">> \o yk
+       ELSE IF Yd(i, "Apply") THEN p3 \o <<"t4">> \o gel2 \o <<"apply">> \o yk
+       ELSE p3 \o <<"t4">> \o gel2 \o <<"apply">> \o tail
+StepwiseEqualsFunctional ==
+    \A i \in 1..Len(h) : h[i].log = ExpectedLog(h[i].inp, IF i = 1 THEN FALSE ELSE h[i - 1].stash_out)
+
 Count(s, x) == Cardinality({i \in 1..Len(s) : s[i] = x})
 Last(s) == s[Len(s)]
-Done(i) == h[i]
 
 \* C17: nothing follows a yield inside a turn
 YieldOnlyAtBoundary ==
